@@ -487,6 +487,12 @@ func skAddW(s int, v, c float64) skOp {
 func skMerge(a, b int) skOp {
 	return skOp{name: fmt.Sprintf("%s.MergeWith(%s)", slotName(a), slotName(b)), tag: "merge", writes: 1 << uint(a),
 		real: func(w *SketchWorld, st []*SkSlot, twin bool) {
+			if twin && w.SkipReads {
+				// read-free twin: being the argument of a merge is a read too; the twin
+				// merges a copy, so its argument is never touched
+				st[a].MergeWith(st[b].CopyOf())
+				return
+			}
 			err := st[a].MergeWith(st[b])
 			if !twin {
 				w.err = err
@@ -752,7 +758,7 @@ func (sp *SketchScenarioSpec) Build() *mc.Scenario[*SketchWorld] {
 			if sp.NoReadTwin {
 				if twin := ObserveSketch(w.T[i].Q()); real != twin {
 					fails = append(fails, mc.Fail{Clause: "C14.reads-leave-no-trace",
-						Detail: fmt.Sprintf("slot %s (%s store): the same history without its read-only operations leads to other answers\n  with reads:    %s\n  without reads: %s", slotName(i), w.S[i].Store, real, twin)})
+						Detail: fmt.Sprintf("slot %s (%s store): the same history without its read-only operations (and with every merge argument replaced by a copy) leads to other answers\n  with reads:    %s\n  without reads: %s", slotName(i), w.S[i].Store, real, twin)})
 				}
 			}
 			if sp.Twin {
